@@ -84,8 +84,10 @@ structure CallObs where
   io : Option Nat := none          -- connection the commands were sent on (if any)
 deriving DecidableEq, Repr
 
-/-- one `PooledClient` call at time `now` whose body behaves as `b` -/
-def call (cfg : Cfg) (s : St) (now : Nat) (b : Body) : St × CallObs :=
+/-- one `PooledClient` call that checks a client out at time `now`, whose body behaves as `b` and which hands the
+client back at time `fin` (`release` stamps `_last_used` with the clock at *release* time, so a slow call does
+not count as idle time) -/
+def callT (cfg : Cfg) (s : St) (now fin : Nat) (b : Body) : St × CallObs :=
   match get cfg s now with
   | (s1, none) => (s1, {})
   | (s1, some c) =>
@@ -97,7 +99,7 @@ def call (cfg : Cfg) (s : St) (now : Nat) (b : Body) : St × CallObs :=
     match b with
     | .ok =>
       let (s2, k) := withConn s1
-      (release cfg s2 { c with conn := some k } now, ⟨some c.id, some k⟩)
+      (release cfg s2 { c with conn := some k } fin, ⟨some c.id, some k⟩)
     | .fail connected =>
       match c.conn, connected with
       | some k, _ => (destroy { s1 with closed := s1.closed ++ [k] } { c with conn := none }, ⟨some c.id, some k⟩)
@@ -106,16 +108,16 @@ def call (cfg : Cfg) (s : St) (now : Nat) (b : Body) : St × CallObs :=
       | none, false => (destroy s1 c, ⟨some c.id, none⟩)
     | .failSwallowed connected =>
       match c.conn, connected with
-      | some k, _ => (release cfg { s1 with closed := s1.closed ++ [k] } { c with conn := none } now, ⟨some c.id, some k⟩)
+      | some k, _ => (release cfg { s1 with closed := s1.closed ++ [k] } { c with conn := none } fin, ⟨some c.id, some k⟩)
       | none, true =>
-        (release cfg { s1 with nextConn := fresh + 1, closed := s1.closed ++ [fresh] } c now, ⟨some c.id, some fresh⟩)
-      | none, false => (release cfg s1 c now, ⟨some c.id, none⟩)
+        (release cfg { s1 with nextConn := fresh + 1, closed := s1.closed ++ [fresh] } c fin, ⟨some c.id, some fresh⟩)
+      | none, false => (release cfg s1 c fin, ⟨some c.id, none⟩)
     | .rejected => (destroy s1 c, ⟨some c.id, none⟩)
     | .quitOk =>
       -- `client.quit()` sends on the connection and closes it; then destroy (finally) and a silent release
       let (s2, k) := withConn s1
       let s3 := destroy { s2 with closed := s2.closed ++ [k] } { c with conn := none }
-      (release cfg s3 { c with conn := none } now, ⟨some c.id, some k⟩)
+      (release cfg s3 { c with conn := none } fin, ⟨some c.id, some k⟩)
     | .quitFail connected =>
       match c.conn, connected with
       | some k, _ =>
@@ -126,10 +128,21 @@ def call (cfg : Cfg) (s : St) (now : Nat) (b : Body) : St × CallObs :=
         (destroy s3 c, ⟨some c.id, some fresh⟩)
       | none, false => (destroy (destroy s1 c) c, ⟨some c.id, none⟩)
 
+/-- an instantaneous call (checkout and release at the same tick) -/
+def call (cfg : Cfg) (s : St) (now : Nat) (b : Body) : St × CallObs := callT cfg s now now b
+
 def run (cfg : Cfg) (s : St) : List (Nat × Body) → St × List CallObs
   | [] => (s, [])
   | (now, b) :: rest =>
     let (s1, u) := call cfg s now b
     let (s2, us) := run cfg s1 rest
+    (s2, u :: us)
+
+/-- histories of calls that take time: `(checkout time, release time, body)` -/
+def runT (cfg : Cfg) (s : St) : List (Nat × Nat × Body) → St × List CallObs
+  | [] => (s, [])
+  | (now, fin, b) :: rest =>
+    let (s1, u) := callT cfg s now fin b
+    let (s2, us) := runT cfg s1 rest
     (s2, u :: us)
 end Pooled
